@@ -196,6 +196,8 @@ func configRun(args []string) error {
 					o = append(o, writer.WithStoreOptions(&storage.StoreOptions{NoClobber: v == "true"}))
 				case "fopt":
 					o = append(o, writer.WithFormatOptions(foptKey, v))
+				case "ser": // no observable content (an empty struct): the call itself must not disturb anything else
+					o = append(o, writer.WithSerializeOptions(&native.SerializeOptions{}))
 				}
 			}
 			ws = append(ws, writer.New(o...))
@@ -372,8 +374,8 @@ func configRun(args []string) error {
 		}
 		return o, order
 	}
-	wvals := map[string][]string{"format": {"cdx15", "spdx23"}, "indent": {"2", "8"}, "noclobber": {"true"}, "fopt": {"v1", "v2"}}
-	rvals := map[string][]string{"fopt": {"v1", "v2"}, "retr": {"x", "y"}}
+	wvals := map[string][]string{"format": {"cdx15", "spdx23"}, "indent": {"2", "8"}, "noclobber": {"true"}, "fopt": {"v1", "v2"}, "ser": {"on"}}
+	rvals := map[string][]string{"fopt": {"v1", "v2"}, "retr": {"x", "y"}, "unser": {"on"}}
 	for sid := 1; sid <= *n; sid++ {
 		exec(map[string]any{"op": "Reset", "sid": sid})
 		nw, nr := 0, 0
